@@ -1,5 +1,5 @@
 PROP = {
-    "kani_groups": ["hk_emit_min"],
+    "kani_groups": ["hk_emit_min", "hk_emit_std"],
     "smt": [],
     "technique": "bounded model checking (Kani/CBMC) of emit::Frame / EnterGuard / FrameFuture and the Ctxt default methods over symbolic well-nested programs",
     "functions": [
@@ -10,8 +10,9 @@ PROP = {
               "entry API in {enter guard (+ optional re-entry), call, with, in_fn}; <= 2 symbolic i32 properties per frame with distinct keys; "
               "two frame-wrapped futures with <= 2 yields each polled in any order (6 steps); a second context instance observed throughout",
     "outside": "the real ThreadLocalCtxt (hash maps in thread-local storage: does not fit CBMC, DESIGN.md section 3) and with it real threads and "
-               "TLS teardown; panic unwinding (EnterGuard::drop is exercised on the normal path); exits out of stack order (excluded by the property)",
-    "stubs": ["Ctxt = array-backed harness implementation of the public trait (env::ArrCtxt): enter/exit swap the frame with the current slot, "
+               "TLS teardown; the unwinder itself (EnterGuard::drop / Frame::call / FrameFuture::poll are executed on the normal path with std::thread::panicking() symbolic "
+               "in the std group); exits out of stack order (excluded by the property)",
+    "stubs": ["std::thread::panicking -> symbolic bool (c03_q_exit_while_panicking)", "Ctxt = array-backed harness implementation of the public trait (env::ArrCtxt): enter/exit swap the frame with the current slot, "
               "open_root collects first-wins; open_push/open_disabled are the trait's real default methods"],
     "assumptions": ["frames are exited in stack order", "keys within a frame are distinct"],
     "level_text": "Bounded model checking of the generic frame discipline (the code every Ctxt shares); PARTIAL: the thread-local implementation itself is outside.",
